@@ -12,6 +12,16 @@ R_ASSUMPTIONS = COMMON_ASSUMPTIONS + [
 ]
 
 PROPS = {
+    "C01": {
+        "level": "model_checking",
+        "evaluations_counter": "programs",
+        "technique": "bounded-exhaustive enumeration of source programs (construct pairs/triples in 8 placements, kind-directed programs) replayed on both execution paths against reference semantics R",
+        "design_ref": "DESIGN.md 6/C01, 4",
+        "rule": "CORPUS + U-PAIR(d): every template (construct with one hole) nested d-1 times and closed by every filler, kept and discarded, in 4 frames + U-SEM(n): all kind-directed statement lists with <= n grammar nodes in 3 frames, enumerated by rank; non-trivial = reference run prints >= 1 byte and evaluates >= 2 distinct construct kinds; distinct by source text",
+        "assumptions": R_ASSUMPTIONS,
+        "text": "Every program of the universes is parsed, compiled and executed on both paths the statement names (compile->interpret and compile->serialize->load->interpret); stdout text and ok/fail must equal the reference semantics; a subset also runs as a real `fml run` process (exit status, stdout). Miscompilations are interactions of two or three constructs; all pairs and triples in all placements are inside the bound.",
+        "note": "trusted: reference semantics R and the printer; not covered: programs larger than the bounds, integer values outside the small alphabet (C09 covers the arithmetic tables)",
+    },
     "C12": {
         "level": "model_checking",
         "evaluations_counter": "programs",
